@@ -165,8 +165,13 @@ def gen_ops(rng, families, n):
                     name = oname
             else:
                 name = rng.choice([f"S{i}", f"vf style {i}", f"odfdo_auto_{rng.choice([1, 2, 5, 9, 10, 11])}", f"é{i}"])
+                if rng.random() < 0.12:
+                    # names an application may show to users: both kinds of quote, also at the edges and doubled
+                    name = rng.choice([f"O'Neil \"Display\" {i}", f"\"Brush\" d'or {i}", f"5\" x 7' card {i}", f"'a' \"\"b\"\" {i}\"", f"true", "false", f"\"'{i}", f"it's \"{i}"])
                 if fam == "paragraph" and kind == "common" and rng.random() < 0.25:
                     name = "odfdopagebreak"  # a user style that happens to carry the reserved name
+                if fam == "table" and rng.random() < 0.5:
+                    name = f"ta_{rng.choice([0, 0, 1, 2])}"  # a user style named like the ones set_table_displayed generates
             if kind == "automatic-unnamed":
                 name = None
             ops.append({"op": "insert_style", "family": fam, "kind": kind, "name": name, "as_xml": rng.random() < 0.15, "name_arg": rng.random() < 0.15})
@@ -175,7 +180,7 @@ def gen_ops(rng, families, n):
         elif k < 0.78:
             ops.append({"op": "many_unnamed", "family": rng.choice(["paragraph", "text", "table-cell"]), "n": rng.choice([3, 11, 12])})
         elif k < 0.86:
-            ops.append({"op": "set_table_displayed", "displayed": rng.random() < 0.5, "with_style": rng.random() < 0.6})
+            ops.append({"op": "set_table_displayed", "displayed": rng.random() < 0.5, "with_style": rng.random() < 0.6, "plant_common": rng.choice([None, None, "ta_0", "ta_1", "ta_0"])})
         elif k < 0.92:
             ops.append({"op": "add_page_break_style"})
         elif k < 0.94:
@@ -198,6 +203,14 @@ def make_style(op):
     if op["family"] == "paragraph" and op["name"] == "odfdopagebreak":
         st.set_properties({"fo:margin-top": "1cm"}, area="paragraph")
     return st
+
+
+def family_of_node(n):
+    return n.get("{urn:oasis:names:tc:opendocument:xmlns:style:1.0}family")
+
+
+def name_of_node(n):
+    return n.get("{urn:oasis:names:tc:opendocument:xmlns:style:1.0}name")
 
 
 def run_case(case, res):
@@ -302,9 +315,30 @@ def run_case(case, res):
                     t.style = nm
                     old_style_name = nm
                     before = census(doc)
+                if op.get("plant_common") and doc.get_style("table", op["plant_common"]) is None:
+                    from odfdo import Style
+
+                    # a user's common table style that happens to be named like the generated ones
+                    doc.insert_style(Style("table", name=op["plant_common"]), automatic=False)
+                    before = census(doc)
                 sigs = {k: [node_sig(n) for n in v] for k, v in before.items()}
+                tstyles_before = {}
+                for k_, v_ in before.items():
+                    for n_ in v_:
+                        if family_of_node(n_) == "table" and name_of_node(n_):
+                            tstyles_before.setdefault(name_of_node(n_), []).append(n_)
+                found_before = {nm_: doc.get_style("table", nm_) for nm_ in tstyles_before}
                 doc.set_table_displayed(t.name, op["displayed"])
                 after = census(doc)
+                new_name = t.style
+                same = [n_ for v_ in after.values() for n_ in v_ if family_of_node(n_) == "table" and name_of_node(n_) == new_name]
+                if len(same) != 1:
+                    out.append(("set_table_displayed:generated-name-not-unique", {"name": new_name, "count": len(same)}))
+                for nm_, el_ in found_before.items():
+                    now_ = doc.get_style("table", nm_)
+                    if el_ is not None and (now_ is None or now_._Element__element is not el_._Element__element):
+                        out.append(("set_table_displayed:existing-style-shadowed", {"name": nm_}))
+                        break
                 cls = (o, "displayed" if op["displayed"] else "hidden", "had-style" if old_style_name else "no-style", dtype)
                 # every pre-existing style is still there, unchanged
                 for k, v in sigs.items():
